@@ -18,7 +18,18 @@ FN2 = "porepy/fracs/fracture_network_2d.py"
 FN3 = "porepy/fracs/fracture_network_3d.py"
 FI = "porepy/fracs/fracture_importer.py"
 
+MG = "porepy/grids/mortar_grid.py"
+MAT = "porepy/grids/match_grids.py"
+
 MUTANTS = {
+    "C26": [
+        {"name": "update_mortar_avg_for_int", "file": MG, "old": "                matrix_int * self._primary_to_mortar_int", "new": "                matrix_avg * self._primary_to_mortar_int"},
+        {"name": "update_primary_forgets_set_projections", "file": MG, "old": "        self._set_projections(secondary=False)\n", "new": ""},
+        {"name": "update_secondary_forgets_set_projections", "file": MG, "old": "        self._set_projections(primary=False)\n", "new": ""},
+        {"name": "revert_unique_faces", "file": MAT, "old": "    faces_on_boundary_old = np.unique(faces_on_boundary_old)\n", "new": ""},
+        {"name": "set_projections_swaps_int_avg", "file": MG, "old": "                    self._primary_to_mortar_avg.T\n", "new": "                    self._primary_to_mortar_int.T\n"},
+        {"name": "update_secondary_int_uses_avg", "file": MG, "old": "        self._secondary_to_mortar_int = sps.bmat(matrix_int, format=\"csc\")", "new": "        self._secondary_to_mortar_int = sps.bmat(matrix_avg, format=\"csc\")"},
+    ],
     "C47": [
         {"name": "revert_ndmin", "file": TXT, "old": "        ndmin=2,\n", "new": ""},
         {"name": "csv2d_append_instead_of_truncate", "file": FN2, "old": "        with open(file_name, \"w\") as csv_file:\n            csv_writer = csv.writer(csv_file, delimiter=\",\")\n            if with_header:", "new": "        with open(file_name, \"a\") as csv_file:\n            csv_writer = csv.writer(csv_file, delimiter=\",\")\n            if with_header:"},
